@@ -43,7 +43,7 @@ def tie_spec(seed: int) -> Dict[str, Any]:
     prof["network"] = rnd.choice(["euclidean", "euclidean", "euclidean", "grid"])
     prof["fleets"] = rnd.choice([0, 2, 3, 3])
     prof["prices"] = rnd.choice(["geoid", "geoid", "station", "none"])
-    prof["search_type"] = "nearest_shortest_queue"
+    prof["search_type"] = rnd.choice(["nearest_shortest_queue"] * 9 + ["shortest_time_to_charge"])
     spec = random_spec(seed, prof)
     elec = ["LEVEL_2", "DCFC", "LEVEL_1"]
     # (a) every public station offers two or three equally ranked on-shift plug types with no queue
@@ -193,9 +193,12 @@ def build_cases(tier, seed):
         scen.append(("denver_demo", shipped_spec("denver_downtown/denver_demo.yaml"), 700))
         scen.append(("denver_demo_constrained", shipped_spec("denver_downtown/denver_demo_constrained_charging.yaml"), 900))
         scen.append(("denver_rl_toy", shipped_spec("denver_downtown/denver_rl_toy.yaml"), 300))
-    for name, spec, st in scen:
+    for j, (name, spec, st) in enumerate(scen):
+        # every third generated scenario adds the hostile generator (a pure function of seed, sim time and vehicle id,
+        # SHA-256 based): all activities and rejection paths get exercised for order dependence as well
+        ctrl = {"stack": ["Dispatcher", "ChargingFleetManager", {"hostile": {"p": 0.2, "seed": 7}}]} if name.startswith("tie") and j % 3 == 2 else None
         for hs in hss + [hss[0]]:  # the first seed is repeated: plain process-to-process repeatability
-            cases.append({"engine": "c01_exec", "id": f"C01-{name}-hs{hs}-{len(cases)}", "scenario": name, "spec": spec, "steps": st, "hashseed": hs, "controller": None})
+            cases.append({"engine": "c01_exec", "id": f"C01-{name}-hs{hs}-{len(cases)}", "scenario": name, "spec": spec, "steps": st, "hashseed": hs, "controller": ctrl})
     return cases
 
 
